@@ -213,6 +213,7 @@ def _judge(prop, records, name):
 def _replay(prop, replay):
     rp = replay['replay']
     scn = rp['scn']
+    scn = G.normalise(scn)
     obs = _exec((scn, rp.get('nest_at')))
     if '_machinery' in obs:
         raise MachineryError(obs['_machinery'])
@@ -331,7 +332,7 @@ def run(prop, tier, replay=None):
     ev.add_tlc('witnesses (every antecedent / fault reached)', rw, role='vacuity')
     reached = sorted({x[0] for x in rw.tags.get('WIT', [])})
     need = ['Concurrency', 'Copyreg', 'DumpWarning', 'Failure', 'MemoGet', 'OptInFalse', 'PatchDelivered', 'Residue', 'Siblings',
-            'StdOp', 'StdPath', 'Warning']
+            'StdOp', 'StdPath', 'Warning', 'AfterFail', 'Falsy']
     if rw.error or [w for w in need if w not in reached]:
         raise MachineryError('witnesses not reached: %s (%s)' % ([w for w in need if w not in reached], rw.error))
     ev.cov['witnesses'] = {'reached': reached, 'asis_model_rejected_by': rrj.error}
@@ -374,8 +375,10 @@ def _describe(s, nest):
         return 'class hierarchy %s (%s%s) op=%s remote=%s proto=%s' % ('>'.join(s['chain']), 'marker-derived' if s['marker'] else 'duck-typed',
                                                                          ', dumped remotely before' if s['seen'] else '', s['op'], s['remote'], s.get('proto'))
     if s['t'] == 'leaf':
-        return 'menu value %s (%s) wrap=%s remote=%s proto=%s' % (s['item'], s['kind'], s['wrap'], s['remote'], s.get('proto'))
-    nodes = ' '.join('%d:%s%s%s[%s]' % (i, nd['kind'], '' if nd['ss'] else '-nosetstate', '' if nd['ds'] else '-nondict',
+        return 'menu value %s (%s) wrap=%s remote=%s proto=%s%s' % (s['item'], s['kind'], s['wrap'], s['remote'], s.get('proto'),
+                                                                    ' on a thread whose previous loads raised' if s.get('after') == 'fail' else '')
+    nodes = ' '.join('%d:%s%s%s[%s]' % (i, nd['kind'], '' if nd['ss'] else '-nosetstate',
+                                        ('' if nd['ds'] else '-nondict') if nd.get('fs', 'no') == 'no' else '-state=%r' % (G.FALSY[nd['fs']],),
                                         ','.join('%s->%d' % (e['k'], e['to']) for e in nd['ent'])) for i, nd in enumerate(s['g'], 1))
     loads = '; '.join('%sloads(patch=%s)%s' % ('T%d:' % L['thr'] if s['par'] else '', json.dumps(G.patch_dict(L['patch'])),
                                              '' if L['fail'] == 'none' else ' with %s@%d' % (L['fail'], L['at'])) for L in s['loads'])
